@@ -231,6 +231,7 @@ pub fn run_scenario(sc: &Value) -> Vec<Value> {
     }
     // the stop(s)
     let mut stop_threads = vec![];
+    let late_at_stop = sc["late_connect"].as_bool().unwrap_or(false);
     let nstops = if sc["second_stop"].as_bool().unwrap_or(false) { 2 } else { 1 };
     for k in 0..nstops {
         let fut = handle.stop(graceful);
@@ -245,6 +246,11 @@ pub fn run_scenario(sc: &Value) -> Vec<Value> {
             let rt = tokio::runtime::Builder::new_current_thread().enable_all().build().unwrap();
             rt.block_on(fut);
             l.emit(json!({"e": "StopResolved", "id": k + 1}));
+            if late_at_stop && k == 0 {
+                // completion = the stop future resolved: from this instant the server must not listen any more
+                let connected = StdTcpStream::connect_timeout(&addr, Duration::from_millis(300)).is_ok();
+                l.emit(json!({"e": "LateConnect", "connected": connected, "c": 99, "at": "stop"}));
+            }
         }));
     }
     let t_stop = Instant::now();
